@@ -2,6 +2,7 @@ import YatimlModel.Lemmas.PlainData
 import YatimlModel.Lemmas.RecSound
 import YatimlModel.Model.Load
 import YatimlModel.Gen.LoaderResolvers
+import YatimlModel.Lemmas.Reach
 /-!
 # C04 — a document cannot cause construction of objects the type model does not call for
 -/
@@ -64,5 +65,23 @@ theorem byTag_registered (env : Env) (t : String) (d : ClassDef) (h : env.byTag 
     simp only [Env.isRegistered, List.any_eq_true]
     exact ⟨d, List.mem_of_find?_eq_some h, by simp⟩
   · cases h
+
+/-- **Only what the type calls for.**  Whatever the document contains — tags of any kind at any node,
+unknown keys, arbitrary nesting below `Any`, untyped or `_yatiml_extra` positions — every user constructor
+a load runs (at any depth, also when the load fails afterwards) belongs to a class *reachable* from the
+declared type: a class the type names, a registered class derived from it, or (recursively) a class
+reachable from the parameter types of such a class (`Reach`).  Hypotheses: the resolver table has core tags
+only (`loaderTable_core`), `EnvWF` (checked on the real classes of every generated model), the names
+`__init__` accepts are its parameters, and dict key types are `str` or a class. -/
+theorem C04_calls_within_reach (env : Env) (tbl : List Entry) (htbl : TableCore tbl) (hwf : EnvWF env)
+    (hargs : ArgsAreParams env)
+    (hparamsOk : ∀ c d, env.find c = some d → ∀ p ∈ d.params, DictKeysOk p.ty)
+    (fuel : Nat) (n : Node) (T : Ty) (hT : DictKeysOk T) :
+    ∀ c ∈ allCalls (loadNode env tbl fuel n T), Reach env T c.cls :=
+  loadNode_calls_reach env tbl htbl hwf hargs hparamsOk fuel n T hT
+
+/-- `Any` reaches nothing: below `Any` no constructor runs -/
+theorem C04_any_reaches_nothing (env : Env) (e : String) : ¬ Reach env .any e := by
+  intro h; cases h
 
 end YatimlModel.C04
